@@ -78,6 +78,35 @@ def add_hydrogens_inside(rnd, lines):
     return out
 
 
+def three_conf_partial(rnd):
+    """a fragment in which the side chain of one ionizable residue has alternates A and B (B displaced by 0.3-0.6 A) and one
+    atom of another residue has alternates A, B and C: conformation C has to take the side chain from A or from B"""
+    for _ in range(40):
+        lines = pdbgen.relabel(pdbgen.fragment(rnd, nres=rnd.randint(4, 8)), chain="A")
+        items = pdbgen.split_residues(lines)
+        res = [k for k, it in enumerate(items) if it[0] == "res" and it[2][0].startswith("ATOM")]
+        ion = [k for k in res if items[k][1][3] in ("ASP", "GLU", "HIS", "TYR", "LYS", "ARG")]
+        if not ion or len(res) < 2:
+            continue
+        k1 = rnd.choice(ion)
+        k2 = rnd.choice([k for k in res if k != k1])
+        sh = [rnd.choice([-1, 1]) * rnd.uniform(0.3, 0.6) for _ in range(3)]
+        new = []
+        for l in items[k1][2]:
+            if l[12:16].strip() in ("N", "CA", "C", "O"):
+                new.append(l)
+            else:
+                x, y, z = pdbgen.coords(l)
+                new.append(pdbgen.setcols(l, 16, 17, "A"))
+                new.append(pdbgen.set_coords(pdbgen.setcols(l, 16, 17, "B"), x + sh[0], y + sh[1], z + sh[2]))
+        items[k1] = ("res", items[k1][1], new)
+        l0 = items[k2][2][-1]
+        x, y, z = pdbgen.coords(l0)
+        items[k2] = ("res", items[k2][1], items[k2][2][:-1] + [pdbgen.set_coords(pdbgen.setcols(l0, 16, 17, tg), x + 0.04 * j, y, z - 0.03 * j) for j, tg in enumerate("ABC")])
+        return pdbgen.flatten(items)
+    return None
+
+
 def edits(rnd, lines):
     out = []
     e = pdbgen.insert_at_random(rnd, lines, pdbgen.JUNK, rnd.randint(2, 6))
@@ -114,6 +143,13 @@ def run(ctx):
     for i in range(6 if ctx.quick() else 60):
         lines, ids = pdbgen.multichain(rnd, nchains=rnd.randint(1, 2), separation=25.0)
         inputs.append(("gen%d" % i, pdbgen.text(lines)))
+    # three conformations of which one lacks atoms that the other two hold at different positions: completing it is a choice
+    # between two sources, which must not look at the unused columns (occupancy, B factor, serial number)
+    for i in range(3 if ctx.quick() else 12):
+        tl = three_conf_partial(rnd)
+        if tl is not None:
+            inputs.append(("alt3-%d" % i, pdbgen.text(tl)))
+            ctx.count("three-conformation inputs with a two-source completion")
     ebad, pbad, kbad = [], [], []
     reqs, reals = [], []
     for name, text in inputs:
